@@ -7,7 +7,7 @@ from .observe import num, Table, frame_rows, _warnset
 
 
 class Tol:
-    def __init__(self, vtol=1e-6, itol=1e-6, atol=1e-8, mult=20.0):
+    def __init__(self, vtol=1e-6, itol=1e-6, atol=0.0, mult=20.0):
         self.rv = mult * vtol
         self.ri = mult * itol
         self.av = 4.0 * atol
@@ -25,7 +25,7 @@ class Tol:
 
 
 AMP_RTOL = 2e-5
-AMP_ATOL = 4e-8
+AMP_ATOL = 1e-15
 
 
 def within(x, iv, tol):
@@ -104,7 +104,9 @@ def inverted(k, vi, vo):
     return vo != 0 and vi != 0 and sgn(vo) != sgn(vi)
 
 
-def amplified(vi, vo):
+def amplified(vi, vo, tol=None):
+    if tol is not None:
+        return abs(vo) > abs(vi) * (1 + tol.rv) + tol.av + 1e-15
     return abs(vo) > abs(vi) * (1 + AMP_RTOL) + AMP_ATOL
 
 
@@ -135,7 +137,7 @@ def check_table(model, table, ta, tol, enabled, out, stats, phase_arg=""):
                 k = model.kind(n)
                 if k in SERIES:
                     vi, vo = r["Vin (V)"], r["Vout (V)"]
-                    if inverted(k, vi, vo) or amplified(vi, vo):
+                    if inverted(k, vi, vo) or amplified(vi, vo, tol):
                         out.sig = row_sig(model.comps[n])
                         out.append(("C03", "series-inverted-or-amplified", "phase %r %s (%s): Vin=%r Vout=%r" % (ph, n, k, vi, vo)))
                         return
